@@ -216,6 +216,13 @@ def collapse_items(items: ExpandedItems, is_linetable: bool) -> CollapsedItems:
                 or prev_item.line_offset <= (-127 if is_linetable else -128)
             )
             and item.line_offset != 0
+            # The rest of a split jump continues in the same direction. A zero
+            # width entry going the other way is a line event of its own
+            # (co_lnotab has those where instructions were optimized away).
+            and (
+                item.line_offset is None
+                or (item.line_offset > 0) == (prev_item.line_offset > 0)
+            )
         )
         # Bytecode offset too large, so split between two
         if bytecode_offset_split or line_offset_split:
